@@ -283,4 +283,18 @@ def run(c, facts, tier):
             okf = False
     got_f = {k_: sorted(v_) for k_, v_ in got_f.items()}
     c.ob("C02.skeleton", comp.key, "each part of the compiled expression comes from the right source", okf, "on every path modules/definitions/initialization/terminate/io_map are read from the manager M the expression was compiled with: %s" % got_f)
+    # C02.input: the per-variant tables above say what each node is translated to; they say something about the policy only
+    # if the tree handed to the generator *is* the expression the caller gave — itself, or `And(it, DefaultPrint)` (C09 decides
+    # when). A rewritten tree (folded, simplified, reordered, filtered) is a second translation step the tables do not cover
+    # and whose interplay with action()/complex_frames() cannot be read off them.
+    WRAP_ = "Expression::Operator(Operator::And(@0,Expression::Action(Action::DefaultPrint)))"
+    tg_ = {emit.canon(c_["recv"]) for p_ in T_["paths"] for c_ in p_["calls"] if c_["method"] == "compile"}
+    unk_ = sorted({u for p_ in T_["paths"] for u in p_["unknown"]})
+    c.ob(
+        "C02.input",
+        comp.key,
+        "the tree translated is the caller's expression (possibly wrapped with the implicit print)",
+        bool(tg_) and tg_ <= {"@0", WRAP_} and not unk_,
+        "compile() hands %s to the code generator%s; a rewritten tree is a translation step outside the per-variant tables" % (sorted(tg_), ("; constructs not understood: %s" % unk_[:2]) if unk_ else ""),
+    )
     c.control("C02.cmp", CMP["GreaterThan"] == ">" and CMP["LesserThan"] == "<", "operator table distinguishes > and <")
